@@ -18,13 +18,13 @@ KIND_CLASS = {
 
 
 def run(chk):
-    r19a(chk)
-    r19b(chk)
-    r19c(chk)
-    r19d(chk)
-    r19e(chk)
-    r19f(chk)
-    r19g(chk)
+    chk.attempt(r19a, chk)
+    chk.attempt(r19b, chk)
+    chk.attempt(r19c, chk)
+    chk.attempt(r19d, chk)
+    chk.attempt(r19e, chk)
+    chk.attempt(r19f, chk)
+    chk.attempt(r19g, chk)
 
 
 def _replace_functions(m):
